@@ -771,6 +771,33 @@ def density_scenario(prim, boundary):
     return f
 
 
+def density_history_scenario(prim, boundary):
+    def f(S):
+        h = Harness(S, prim, "fn/1")
+        dens = S.real("density")
+        S.assume(dens.t > 0)
+        obj = S.getattr(h.dom, "boundary") if boundary else h.dom
+        if boundary and prim.name in ("parallelogram", "triangle"):
+            S.use_contract(prim.bcls + "._transform_interval_to_boundary", walk_summary(prim))
+        # first call at parameter row t1, then a second call on the SAME object with the same density at row t2
+        first = tensor_of(S.method(obj, "sample_random_uniform", None, dens, h.params))
+        T2 = S.tensor("tparam2", [1, 1])
+        p2 = S.new(POINTS, T2, S.new(R1, "t"))
+        second = tensor_of(S.method(obj, "sample_random_uniform", None, dens, p2))
+        v2 = h.shapes.at(zreal(T2.val.at([(), ()])))
+        m2 = (prim.bmeas if boundary else prim.meas)(v2)
+        rows = second.shape[0].size_term()
+        lo, hi = dens.t * m2, dens.t * m2 + 1
+        if prim.name == "triangle" and not boundary:
+            S.ensure("second-call-at-most-2-ceil-density-times-ITS-measure", z3.And(rows >= 0, z3.ToReal(rows) < 2 * hi))
+        else:
+            S.ensure("second-call-returns-ceil-density-times-the-measure-of-ITS-parameter-row", z3.And(lo <= z3.ToReal(rows), z3.ToReal(rows) < hi))
+
+    f.__name__ = f"{prim.name}{'_boundary' if boundary else ''}_density_sampling_twice_with_different_parameters"
+    f.__doc__ = "history: two density samplings of one domain object with the same density at two different parameter rows (the loop the library recommends): the second count is ceil(density * measure at the SECOND row)"
+    return f
+
+
 def normal_direction_summary(prim, exact_log=None):
     """contract of <Polygon>Boundary._get_normal_direction(direction): rows e with |e| = 1, e . d = 0 and fixed
     orientation (parallelogram: cross(d, e) > 0, triangle: cross(d, e) < 0); requires d != 0.
@@ -1117,12 +1144,17 @@ def _register():
                         scenario(prop, [D + "domain1D.interval.IntervalSingleBoundaryPoint." + method], configs=cfgs)(sampling_scenario(prim, prop, method, True, side))
         if prim.name in ("parallelogram", "triangle"):
             scenario("C01", [prim.bcls + "._transform_interval_to_boundary", prim.bcls + "._scale_points_on_side"], configs=["any"])(walk_helper_scenario(prim))
+            # the same exact spec is the per-call law clause of the boundary samplers (C11): the walk is the arc-length
+            # parametrisation of the perimeter (leg k is covered at constant speed with ITS OWN side length)
+            scenario("C11", [prim.bcls + "._transform_interval_to_boundary", prim.bcls + "._scale_points_on_side"], configs=["any"])(walk_helper_scenario(prim))
         scenario("C05", [prim.cls + "._contains", DOMAIN + ".__contains__"] + ([prim.cls + "._solve_lgs"] if prim.name in ("parallelogram", "triangle") else []), configs=["const", "fn"])(contains_scenario(prim, False))
         if prim.has_boundary:
             scenario("C05", [prim.bcls + "._contains"], configs=["const", "fn"])(contains_scenario(prim, True))
         scenario("C10", [prim.cls + "._get_volume", DOMAIN + ".volume"] + ([prim.bcls + "._get_volume"] if prim.has_boundary else []), configs=CFGS)(volume_scenario(prim))
         if prim.name != "point":
             scenario("C10", [prim.cls + ".sample_random_uniform", DOMAIN + ".compute_n_from_density"], configs=["const/none", "fn/1"])(density_scenario(prim, False))
+            if prim.name in ("interval", "circle", "sphere"):
+                scenario("C10", [prim.cls + ".sample_random_uniform", DOMAIN + ".compute_n_from_density"], configs=["fn/1-then-fn/1"])(density_history_scenario(prim, False))
             if prim.has_boundary:
                 scenario("C10", [prim.bcls + ".sample_random_uniform", DOMAIN + ".compute_n_from_density"], configs=["const/none", "fn/1"])(density_scenario(prim, True))
         scenario("C18", [prim.cls + ".bounding_box"] + ([BDOMAIN + ".bounding_box"] if prim.has_boundary else []), configs=CFGS)(bbox_scenario(prim))
